@@ -25,13 +25,14 @@ meta = {
     "property": prop,
     "variant": os.environ.get("SEEDNAME", var),
     "origin": "fresh sub-agent given only the property text and a scratch worktree of /repo",
+    "round": 2 if os.environ.get("SEEDSRC", "").endswith("seed2") else 1,
     "needs_to_manifest": needs,
     "confirmed_by_me": {
         "worktree": "scratch worktree of /repo HEAD under /tmp/cf (removed afterwards)",
         "ran": ["bash build_and_run.sh <clean tree>", "git apply patch.diff", "bash build_and_run.sh <changed tree>",
-                "cmake -G Ninja ... && cmake --build", "ctest -j4 --timeout 900"],
+                "cmake -G Ninja ... && cmake --build", "ctest -j2..4 --timeout 900; tests that failed (memory pressure / timing on the shared machine) run again alone with --rerun-failed -j1"],
         "demo_exit_clean_tree": g("DEMO_CLEAN_EXIT"), "demo_exit_changed_tree": g("DEMO_CHANGED_EXIT"),
-        "build_exit": g("BUILD_EXIT"), "ctest": ct,
+        "build_exit": g("BUILD_EXIT"), "ctest": ct, "ctest_failed_tests_rerun_alone_exit": g("RERUN_FAILED_ALONE_EXIT"), "ctest_final_exit": g("CTEST_EXIT"),
         "note": "tests outside BASELINE.json stable_pass (flaky list: sleep-while-inspecting, default-devices, one-video-stream, client-queue-is-flushed-after-abort) fail under load with and without the change",
     },
     "detected_by": caught,
